@@ -35,11 +35,38 @@
                                    the precedents only it reaches
    Side conditions of the proof only: from-scratch values of formula cells are
    scalars (close_enough is then reflexive); no formula computes its own text.
-   ORACLE-ONLY: the classification of cells that raise into 'exceptions' /
-   'not-implemented' (formula meaning is total in the model). *)
+   The theorems above are about Model/Validate.v (formula meaning total: nothing
+   raises).  CELLS THAT RAISE: the C12_*_f theorems at the end of this file, about
+   Model/ValidateFail.v = the same loop with its [except] branch over the machine
+   of Model/Fail.v (C09).  Vocabulary (Proofs/C12FailBase.v, C12Fail.v, C12Chain.v):
+     fsem n vals = None / fpre n = Some k   the function of cell n raises / cell n
+                          calls an unknown function after reading k precedents
+     fspec W fsem fpre inp n   the from-scratch outcome: FVal v | FRaise class
+     G                    ANY set of nodes closed under precedents on which the
+                          stored results that are present are the from-scratch
+                          values (a G-cell that raises has none); nothing is
+                          assumed outside G (altered results, results stored on
+                          cells that raise, dependants of both)
+     validate_f … raise_exceptions outs   the final state: fs_report = the
+                          'mismatch' dictionary, fs_exc = every (address, chain)
+                          the except branch appended, oldest first; fs_verified,
+                          fs_todo (what is left when the fuel runs out), fs_raised
+     chain                the message of the exception = the cells of its "Eval:"
+                          lines, outermost first, innermost = the cell whose own
+                          function failed; bucket and key are read off it
+                          (not_implemented, key_of; failed_buckets = the two
+                          dictionaries)
+     chain_ok n ch        ch is not empty, names non-input cells at or above n, and
+                          its innermost cell fails by itself (unknown function, or a
+                          function that raises on some arguments)
+     ancG G n             every strict ancestor of n is in G
+     reach_ok o n         n is reached from o through nodes that evaluate from scratch
+     listed exc n         some entry of fs_exc carries the address n *)
 From Coq Require Import List QArith.
 From PV Require Import Lib.Py Model.Graph Model.Validate.
 From PV Require Import Proofs.C01Base Proofs.C01 Proofs.C12Base Proofs.C12.
+From PV Require Import Model.Fail Model.ValidateFail.
+From PV Require Import Proofs.C12Chain Proofs.C12FailBase Proofs.C12Fail.
 Import ListNotations.
 Local Open Scope nat_scope.
 
@@ -132,3 +159,139 @@ Print Assumptions C12_close_enough_refl.
 Theorem C12_outputs_default : forall W o, In o (all_formulas W) -> o < wb_n W.
 Proof. exact all_formulas_lt. Qed.
 Print Assumptions C12_outputs_default.
+
+(* ====================================================== cells that raise ==== *)
+
+(* the machine under the loop is the machine of C09 (Model/Fail.v), with the
+   message of the exception carried along: same state, same value, same class *)
+Theorem C12_chain_machine_is_fail_machine : forall W fsem fpre rorder s n,
+  evaluate_f W fsem fpre rorder s n
+  = (fst (evaluate_c W fsem fpre rorder s n), erase (snd (evaluate_c W fsem fpre rorder s n))).
+Proof. exact evaluate_c_erase. Qed.
+Print Assumptions C12_chain_machine_is_fail_machine.
+
+(* PARTIAL (soundness half; the completeness half — the altered cell itself is
+   reported — is oracle-only when cells raise): cells that raise, stale results
+   and anything else outside G never make a cell of G a mismatch, whatever the
+   outputs and the pop order.  With G = the cells that do not depend on an
+   altered result: every reported mismatch depends on an altered cell *)
+Theorem C12_mismatches_unaffected_f_partial :
+  forall W fsem fpre rorder ftext tol outs (G : nat -> Prop),
+  wf W ->
+  (forall n d, n < wb_n W -> G n -> In d (wb_deps W n) -> G d) ->
+  (forall m, m < wb_n W -> G m -> is_fcell W m = true ->
+     wb_stored W m = VNone \/ fspec W fsem fpre (wb_inp0 W) m = FVal (wb_stored W m)) ->
+  (forall n v, n < wb_n W -> G n -> is_fcell W n = true ->
+     fspec W fsem fpre (wb_inp0 W) n = FVal v -> py_eq v (VStr (ftext n)) = false) ->
+  (forall n v, n < wb_n W -> G n -> is_fcell W n = true ->
+     fspec W fsem fpre (wb_inp0 W) n = FVal v -> is_scalar v = true) ->
+  tol_pos tol ->
+  (forall o, In o outs -> o < wb_n W) ->
+  forall n, n < wb_n W -> G n ->
+    rep_get (fs_report (validate_f W fsem fpre rorder ftext tol false outs)) n = None.
+Proof. exact mismatches_unaffected. Qed.
+Print Assumptions C12_mismatches_unaffected_f_partial.
+
+(* what the exception dictionaries contain: every entry is (address, message)
+   with a well-formed chain, and a listed cell all of whose ancestors are in G
+   really raises from scratch; with raise_exceptions=False nothing leaves the loop *)
+Theorem C12_listed_sound_f :
+  forall W fsem fpre rorder ftext tol outs (G : nat -> Prop),
+  wf W ->
+  (forall n d, n < wb_n W -> G n -> In d (wb_deps W n) -> G d) ->
+  (forall m, m < wb_n W -> G m -> is_fcell W m = true ->
+     wb_stored W m = VNone \/ fspec W fsem fpre (wb_inp0 W) m = FVal (wb_stored W m)) ->
+  (forall n v, n < wb_n W -> G n -> is_fcell W n = true ->
+     fspec W fsem fpre (wb_inp0 W) n = FVal v -> py_eq v (VStr (ftext n)) = false) ->
+  (forall n v, n < wb_n W -> G n -> is_fcell W n = true ->
+     fspec W fsem fpre (wb_inp0 W) n = FVal v -> is_scalar v = true) ->
+  tol_pos tol ->
+  (forall o, In o outs -> o < wb_n W) ->
+  forall n ch, In (n, ch) (fs_exc (validate_f W fsem fpre rorder ftext tol false outs)) ->
+    n < wb_n W /\ chain_ok W fsem fpre n ch /\
+    (ancG W G n -> is_raise (fspec W fsem fpre (wb_inp0 W) n) = true).
+Proof. exact listed_sound. Qed.
+Print Assumptions C12_listed_sound_f.
+
+(* PARTIAL (reachable THROUGH CELLS THAT EVALUATE — the except branch does not walk
+   the precedents of a cell that raises, coq/Refuted/C12_failed_cell_precedents.v —;
+   for a run that ends with an empty stack: the fuel bound of Model/Validate.v is
+   not proved sufficient when cells raise): every node of G reached from a checked
+   output through nodes that evaluate from scratch is verified or listed under
+   exceptions / not-implemented *)
+Theorem C12_nothing_silently_skipped_f_partial :
+  forall W fsem fpre rorder ftext tol outs (G : nat -> Prop),
+  wf W ->
+  (forall n d, n < wb_n W -> G n -> In d (wb_deps W n) -> G d) ->
+  (forall m, m < wb_n W -> G m -> is_fcell W m = true ->
+     wb_stored W m = VNone \/ fspec W fsem fpre (wb_inp0 W) m = FVal (wb_stored W m)) ->
+  (forall n v, n < wb_n W -> G n -> is_fcell W n = true ->
+     fspec W fsem fpre (wb_inp0 W) n = FVal v -> py_eq v (VStr (ftext n)) = false) ->
+  (forall n v, n < wb_n W -> G n -> is_fcell W n = true ->
+     fspec W fsem fpre (wb_inp0 W) n = FVal v -> is_scalar v = true) ->
+  tol_pos tol ->
+  (forall o, In o outs -> o < wb_n W) ->
+  forall o n,
+    fs_todo (validate_f W fsem fpre rorder ftext tol false outs) = [] ->
+    In o outs -> G o -> reach_ok W fsem fpre o n ->
+    mem n (fs_verified (validate_f W fsem fpre rorder ftext tol false outs)) = true \/
+    listed (fs_exc (validate_f W fsem fpre rorder ftext tol false outs)) n.
+Proof. exact nothing_skipped. Qed.
+Print Assumptions C12_nothing_silently_skipped_f_partial.
+
+(* PARTIAL (same two restrictions): a formula cell so reached whose recomputation
+   raises is listed with its address and the chain of its message (the bucket and
+   the key are not_implemented / key_of of that chain: 'not-implemented' exactly
+   when the innermost cell calls an unknown function or, for a one-cell chain,
+   raises NotImplementedError) … *)
+Theorem C12_failing_reported_partial :
+  forall W fsem fpre rorder ftext tol outs (G : nat -> Prop),
+  wf W ->
+  (forall n d, n < wb_n W -> G n -> In d (wb_deps W n) -> G d) ->
+  (forall m, m < wb_n W -> G m -> is_fcell W m = true ->
+     wb_stored W m = VNone \/ fspec W fsem fpre (wb_inp0 W) m = FVal (wb_stored W m)) ->
+  (forall n v, n < wb_n W -> G n -> is_fcell W n = true ->
+     fspec W fsem fpre (wb_inp0 W) n = FVal v -> py_eq v (VStr (ftext n)) = false) ->
+  (forall n v, n < wb_n W -> G n -> is_fcell W n = true ->
+     fspec W fsem fpre (wb_inp0 W) n = FVal v -> is_scalar v = true) ->
+  tol_pos tol ->
+  (forall o, In o outs -> o < wb_n W) ->
+  forall o n,
+    fs_todo (validate_f W fsem fpre rorder ftext tol false outs) = [] ->
+    In o outs -> G o -> reach_ok W fsem fpre o n ->
+    is_fcell W n = true -> is_raise (fspec W fsem fpre (wb_inp0 W) n) = true ->
+    exists ch, In (n, ch) (fs_exc (validate_f W fsem fpre rorder ftext tol false outs)) /\
+               chain_ok W fsem fpre n ch.
+Proof. exact failing_reported. Qed.
+Print Assumptions C12_failing_reported_partial.
+
+(* … and a node so reached that evaluates from scratch is verified *)
+Theorem C12_evaluating_verified_f_partial :
+  forall W fsem fpre rorder ftext tol outs (G : nat -> Prop),
+  wf W ->
+  (forall n d, n < wb_n W -> G n -> In d (wb_deps W n) -> G d) ->
+  (forall m, m < wb_n W -> G m -> is_fcell W m = true ->
+     wb_stored W m = VNone \/ fspec W fsem fpre (wb_inp0 W) m = FVal (wb_stored W m)) ->
+  (forall n v, n < wb_n W -> G n -> is_fcell W n = true ->
+     fspec W fsem fpre (wb_inp0 W) n = FVal v -> py_eq v (VStr (ftext n)) = false) ->
+  (forall n v, n < wb_n W -> G n -> is_fcell W n = true ->
+     fspec W fsem fpre (wb_inp0 W) n = FVal v -> is_scalar v = true) ->
+  tol_pos tol ->
+  (forall o, In o outs -> o < wb_n W) ->
+  forall o n,
+    fs_todo (validate_f W fsem fpre rorder ftext tol false outs) = [] ->
+    In o outs -> G o -> reach_ok W fsem fpre o n ->
+    is_raise (fspec W fsem fpre (wb_inp0 W) n) = false ->
+    mem n (fs_verified (validate_f W fsem fpre rorder ftext tol false outs)) = true.
+Proof. exact evaluating_verified. Qed.
+Print Assumptions C12_evaluating_verified_f_partial.
+
+(* the two exception dictionaries are exactly the appended entries, each under
+   the bucket and the key text its message demands *)
+Theorem C12_failed_buckets : forall fpre fnimp ktext l k x,
+  (in_bucket (fst (failed_buckets fpre fnimp ktext l)) k x <->
+     In x l /\ not_implemented fpre fnimp (snd x) = true /\ ktext (key_of fpre (snd x)) = k) /\
+  (in_bucket (snd (failed_buckets fpre fnimp ktext l)) k x <->
+     In x l /\ not_implemented fpre fnimp (snd x) = false /\ ktext (key_of fpre (snd x)) = k).
+Proof. exact failed_buckets_spec. Qed.
+Print Assumptions C12_failed_buckets.
